@@ -169,11 +169,70 @@ def one_case(rng, res):
         scen.drop_root(root)
 
 
+def cli_case(rng, res):
+    """The same at the command line: a layout with inspections, signed by its owners; in-toto-verify is given the owners'
+    keys through one option and one more key - which did not sign - through another (or the same). The layout is
+    under-signed for that invocation: non-zero status and no inspection command executed."""
+    import os
+    from harness import cli
+    from harness.props import c18
+    root = scen.new_root()
+    cwd = os.getcwd()
+    try:
+        ch = scen.gen_chain(rng, root, n_steps=1, n_insp=0, thresholds=(1,), max_funcs=1)
+        set_inspections(rng, ch, "c")
+        for x in ch.inspections:
+            x["action"] = "exit0"
+        if not ch.inspections:
+            ch.inspections = [{"name": "cq0", "ident": "cq0", "action": "exit0"}]
+        scn = scen.build(ch, root, rng)
+        scn.materialise(root)
+        owners = [k for k in W.pool() if k.keyid in scn.keys]
+        rsa = [k for k in W.pool() if k not in ch.owners and k.kind == "rsa"]
+        stranger = rsa[0] if rsa else [k for k in W.pool() if k not in ch.owners][0]
+        form = rng.choice(["control", "layout_keys", "layout_keys_first", "same_option", "gpg"])
+        if form.startswith("layout_keys") and not rsa:
+            form = "same_option"
+        if form == "gpg" and not W.gpg_available():
+            form = "same_option"
+        own = ["--verification-keys"] + [c18.write_pub_pem(k, root) for k in owners]
+        argv = ["--layout", os.path.join(root, "root.layout"), "--link-dir", os.path.join(root, "links"), "--inspection-timeout", "60"]
+        if form == "control":
+            argv += own
+        elif form == "layout_keys":
+            argv += own + ["--layout-keys", c18.write_pub_pem(stranger, root)]
+        elif form == "layout_keys_first":
+            argv += ["--layout-keys", c18.write_pub_pem(stranger, root)] + own
+        elif form == "same_option":
+            argv += own + [c18.write_pub_pem(stranger, root)]
+        else:
+            g = W.gpg_key("no_sub")
+            argv += ["--gpg", g.keyid, "--gpg-home", g.gpg_home] + own
+        logpath = os.path.join(root, "insp.log")
+        os.chdir(os.path.join(root, "product"))
+        st, _o, _e = cli.run_main("in_toto_verify", argv)
+        log = open(logpath).read().split() if os.path.exists(logpath) else []
+    finally:
+        os.chdir(cwd)
+        scen.drop_root(root)
+    ids = [x["ident"] for x in ch.inspections]
+    ok = (st == 0 and log == ids) if form == "control" else (st != 0 and not log)
+    case = {"op": "cli_under_signed", "form": form, "layout_fmt": ch.layout_fmt, "inspections": ids}
+    res.case(dict(case, status=st, executed=log), True, ok, sample_cap=1)
+    res.count("cli_" + form)
+    if not ok:
+        res.fail("oracle", case, {"why": ("honest chain at the command line: status %r, executed %r" % (st, log)) if form == "control" else
+                                         "in-toto-verify was given a key (%s) for which the layout carries no signature, yet it %s" % (
+                                             form, "executed inspection commands %r" % log if log else "exited 0"), "status": st})
+
+
 def shard(seed, idx, n, tier):
     res = core.Result()
     rng = core.rng_for(seed, "c07", idx)
     for _ in range(n):
         one_case(rng, res)
+    for _ in range(max(1, n // 6)):
+        cli_case(rng, res)
     return res
 
 
